@@ -127,7 +127,7 @@ func checkC05(c *Ctx) {
 	if !c.Quick() {
 		nRand, randN = 12, 6
 	}
-	for _, g := range RandomGrammars(int64(c.Seed)+1000, nRand, true) {
+	for _, g := range append(RandomGrammars(int64(c.Seed)+1000, nRand/2, true), VariedGrammars(int64(c.Seed)+1000, nRand-nRand/2, true)...) {
 		ga := g.WithRecordingActions()
 		t, err := c.parserTarget(ga, true, append(parserHarness, "genparser/c05.go")...)
 		if err != nil {
@@ -349,7 +349,7 @@ func checkC02(c *Ctx) {
 	if !c.Quick() {
 		nRand, randN = 12, 5
 	}
-	for _, g := range RandomGrammars(int64(c.Seed), nRand, false) {
+	for _, g := range append(RandomGrammars(int64(c.Seed), nRand/2, false), VariedGrammars(int64(c.Seed), nRand-nRand/2, false)...) {
 		ga := g.WithRecordingActions()
 		t, err := c.parserTarget(ga, true, append(parserHarness, "genparser/c05.go")...)
 		if err != nil {
